@@ -343,7 +343,7 @@ fn direct_bus(rng: &mut Rng, rep: &mut Report) {
 }
 
 pub fn run(ctx: &Ctx) -> Report {
-    let n = ctx.size(40_000, 2_000_000) as usize;
+    let n = ctx.size(1_500_000, 20_000_000) as usize;
     let batches = (n + 19) / 20;
     let mut rep = par_items(ctx.threads, batches + 1, ctx.seed, move |i, seed, rep| {
         let mut rng = Rng::new(seed);
